@@ -9,7 +9,6 @@ import (
 	"errors"
 	"fmt"
 	"math/big"
-	"os"
 	"strings"
 
 	sproto "go.starlark.net/lib/proto"
@@ -991,9 +990,6 @@ func (e *engine) step(i int, op Op) (stop bool, err error) {
 		e.counts["op:"+op.Op+":panic(known)"]++
 	case rerr != nil:
 		e.counts["op:"+op.Op+":error"]++
-		if merr != nil && os.Getenv("C20_WHY") != "" {
-			e.counts["why:"+op.Op+":"+merr.Error()]++
-		}
 		if mut != nil && (mut.flag.frozen) {
 			e.counts["mutation-through-frozen-handle:refused"]++
 		}
